@@ -141,9 +141,10 @@ def same_orbit_as_prev_stop(rng, rdh, ctx):
 
 def padding_too_long(rng, per, li, k):
     r, p = per[li][k]
-    if r[24] != 2 or not p:
+    if not p:
         return None
-    np_ = p + b"\xFF" * 16
+    # both data formats: the limit is documented for the payload as such (in format 0 the padding follows the last 16-byte slot)
+    np_ = p + b"\xFF" * rng.choice([16, 16, 17, 26, 32])
     b = bytearray(r)
     struct.pack_into("<H", b, 8, 64 + len(np_))
     struct.pack_into("<H", b, 10, 64 + len(np_))
@@ -231,7 +232,7 @@ def run(tier, seed):
         while done < reps and tries < 60:
             tries += 1
             stave = rng.random() < 0.35
-            fmt = 2 if name == "padding > 15 bytes" else rng.choice([0, 2])
+            fmt = [0, 2][(done + names.index(name)) % 2]     # every entry is applied to both data formats, in turn
             _m, per = streams.conforming(rng, nlinks=rng.choice([1, 2, 3]), nhbf=rng.choice([2, 3]), stave_level=stave, fmt=fmt)
             per = [list(pk) for pk in per]
             # RDH rules do not depend on the payload: a third of their streams carry arbitrary payload sizes incl. none at all (modes without a target only)
